@@ -189,3 +189,37 @@ def loop_runs_to_end(loop_ast) -> bool:
                 return False
         return True
     return all(walk(st, True) if not isinstance(st, (ast.Return, ast.Break)) else False for st in loop_ast.body)
+
+
+def src_resolved(A: Analysis, func: FuncInfo, expr, depth=3) -> str:
+    """Source text of expr with every single-assignment local replaced by its defining expression (recursively): text
+    matching that does not depend on intermediate locals."""
+    import copy
+    key = (id(func.node), id(expr), depth)
+    hit = _SRC_RESOLVED.get(key)
+    if hit is not None and hit[0] is expr:
+        return hit[1]
+    if not any(isinstance(x, ast.Name) and isinstance(x.ctx, ast.Load) and subst_single_assign(A, func, x) is not x for x in ast.walk(expr)):
+        _SRC_RESOLVED[key] = (expr, src(expr))
+        return _SRC_RESOLVED[key][1]
+
+    class T(ast.NodeTransformer):
+        def __init__(self, d):
+            self.d = d
+
+        def visit_Name(self, node):
+            if isinstance(node.ctx, ast.Load) and self.d > 0:
+                e = subst_single_assign(A, func, node)
+                if e is not node:
+                    return T(self.d - 1).visit(copy.deepcopy(e))
+            return node
+
+    try:
+        out = src(T(depth).visit(copy.deepcopy(expr)))
+    except Exception:
+        out = src(expr)
+    _SRC_RESOLVED[key] = (expr, out)
+    return out
+
+
+_SRC_RESOLVED: dict = {}
